@@ -87,20 +87,34 @@ pub fn break_concat(last_string: &str) -> bool {
 }
 
 pub fn ends_with_prefix(statement: &Statement) -> bool {
+    statement_ends_with_prefix(statement, false)
+}
+
+/// Same as `ends_with_prefix` for a generator that writes a number with its original token
+/// when it has one (a number too large for a double is then not written `(1/0)`).
+pub fn ends_with_prefix_keeping_tokens(statement: &Statement) -> bool {
+    statement_ends_with_prefix(statement, true)
+}
+
+fn statement_ends_with_prefix(statement: &Statement, keep_tokens: bool) -> bool {
     match statement {
         Statement::Assign(assign) => {
             if let Some(value) = assign.last_value() {
-                expression_ends_with_prefix(value)
+                expression_ends_with_prefix(value, keep_tokens)
             } else {
                 false
             }
         }
-        Statement::CompoundAssign(assign) => expression_ends_with_prefix(assign.get_value()),
+        Statement::CompoundAssign(assign) => {
+            expression_ends_with_prefix(assign.get_value(), keep_tokens)
+        }
         Statement::Call(_) => true,
-        Statement::Repeat(repeat) => expression_ends_with_prefix(repeat.get_condition()),
+        Statement::Repeat(repeat) => {
+            expression_ends_with_prefix(repeat.get_condition(), keep_tokens)
+        }
         Statement::LocalAssign(assign) => {
             if let Some(value) = assign.last_value() {
-                expression_ends_with_prefix(value)
+                expression_ends_with_prefix(value, keep_tokens)
             } else {
                 false
             }
@@ -162,21 +176,25 @@ pub fn starts_with_parenthese(statement: &Statement) -> bool {
     }
 }
 
-fn expression_ends_with_prefix(expression: &Expression) -> bool {
+fn expression_ends_with_prefix(expression: &Expression, keep_tokens: bool) -> bool {
     match expression {
-        Expression::Binary(binary) => expression_ends_with_prefix(binary.right()),
+        Expression::Binary(binary) => expression_ends_with_prefix(binary.right(), keep_tokens),
         Expression::Call(_)
         | Expression::Parenthese(_)
         | Expression::Identifier(_)
         | Expression::Field(_)
         | Expression::Index(_)
         | Expression::TypeInstantiation(_) => true,
-        Expression::Unary(unary) => expression_ends_with_prefix(unary.get_expression()),
+        Expression::Unary(unary) => {
+            expression_ends_with_prefix(unary.get_expression(), keep_tokens)
+        }
         Expression::If(if_expression) => {
-            expression_ends_with_prefix(if_expression.get_else_result())
+            expression_ends_with_prefix(if_expression.get_else_result(), keep_tokens)
         }
         // numbers that are not finite are written between parentheses (`(0/0)`, `(1/0)`)
-        Expression::Number(number) => !number.compute_value().is_finite(),
+        Expression::Number(number) => {
+            !(keep_tokens && number.get_token().is_some()) && !number.compute_value().is_finite()
+        }
         Expression::False(_)
         | Expression::Function(_)
         | Expression::Nil(_)
